@@ -231,7 +231,7 @@ class World:
 
 
 OPS = ['create', 'create', 'copy', 'hold', 'unpickle', 'unpickle', 'nest', 'nest', 'unnest', 'fetch', 'drop', 'drop', 'child_arg', 'child_queue', 'managed',
-       'managed_same', 'managed_same', 'agent_exit', 'shm', 'use', 'fork_child']
+       'managed_same', 'managed_same', 'agent_exit', 'shm', 'use', 'fork_child', 'raising_call', 'raising_call']
 
 
 def step(w: World, i):
@@ -418,6 +418,27 @@ def step(w: World, i):
         w.obs['cross_process_transfers'] += 1
         w.obs['children'] += 1
         return f'{op}:done'
+    if op == 'raising_call':
+        # a hosted method that raises, called with proxies as arguments (and then the proxy is possibly dropped): the failed call must not
+        # leave a reference to its arguments behind
+        a = rng.choice(actors)
+        boxes = w.handles_of(a, types=('box',))
+        others = w.handles_of(a)
+        if not boxes or not others:
+            return None
+        hb, ha = rng.choice(boxes), rng.choice(others)
+        r = w.call(a, hb, 'refuse', [('@H', ha), 5])
+        if r[0] != 'exc' or r[1]['type'] != 'ValueError':
+            w.viol.append({'mech': 'refcount/live-proxy-unusable/raising_call', 'msg': f'Box.refuse(proxy) through a proxy gave {str(r)[:200]}, expected ValueError'})
+        w.obs['raising_calls_with_proxy_args'] = w.obs.get('raising_calls_with_proxy_args', 0) + 1
+        if rng.random() < 0.5 and ha != hb:
+            if a == 0:
+                del w.reg[ha]
+            else:
+                w.agent(a, ('drop', ha))
+            del m.handles[(a, ha)]
+            w.obs['drops'] += 1
+        return 'raising_call:done'
     if op == 'fork_child':
         # an agent forks (stdlib fork start method) a child that inherits all the agent's proxies, uses one and exits: nothing may be left behind
         ags = [a for a in w.agents if w.handles_of(a)]
@@ -591,4 +612,4 @@ def decide_inconclusive(obs, results, cases):
     return None
 
 
-RULE = RULE + '; sender drops its proxy while the argument is in transit to a new child; an agent forks a child (stdlib fork start method) that inherits all its proxies by memory, uses one and exits'
+RULE = RULE + '; sender drops its proxy while the argument is in transit to a new child; an agent forks a child (stdlib fork start method) that inherits all its proxies by memory, uses one and exits; a hosted method that raises, called with proxies as arguments'
